@@ -452,6 +452,10 @@ func c10Control(r *rt.Run, failAt bool) {
 func c10BinIndex(r *rt.Run, failAt bool) {
 	t := r.T
 	n := t.Range(1, 5, "pkgs.n")
+	if !failAt && t.Bool(1, 60, "pkgs.many") {
+		n = 100 + t.Draw(300, "pkgs.many.n")
+		r.Probe("index-with-hundreds-of-stanzas")
+	}
 	var ms []mBinIndex
 	var sb strings.Builder
 	for i := 0; i < n; i++ {
@@ -835,5 +839,5 @@ func init() {
 		},
 		Assumptions: []string{"the .deb control file kind of this property is exercised by C14's check", "two-part architecture names are compared on OS and CPU only"},
 	})
-	propProbes["C10"] = []string{"control-file-of-a-deb", "GetDSC", "same-kind-decoded-by-concurrent-callers-first-thing-in-the-run", "relative-names-after-a-change-of-directory", "clearsigned-document", "several-document-kinds-in-one-run", "line-longer-than-4096-bytes", "caller-bufio-smaller-than-4096", "via-file-entry-point"}
+	propProbes["C10"] = []string{"index-with-hundreds-of-stanzas", "control-file-of-a-deb", "GetDSC", "same-kind-decoded-by-concurrent-callers-first-thing-in-the-run", "relative-names-after-a-change-of-directory", "clearsigned-document", "several-document-kinds-in-one-run", "line-longer-than-4096-bytes", "caller-bufio-smaller-than-4096", "via-file-entry-point"}
 }
